@@ -195,9 +195,17 @@ func init() {
 			}
 		}
 		// messages: all combinations of optional fields
-		for mask := 0; mask < 32; mask++ {
-			lat, lon, speed := 60.18, -5.3972, 4.5
-			crs, _ := catalog.NewCourse(45, mask&1 == 1)
+		// variants: ordinary values, and zero values that are SET (a stationary station at 0N 0E heading north)
+		for vm := 0; vm < 3*32; vm++ {
+			mask, variant := vm%32, vm/32
+			lat, lon, speed, cdeg := 60.18, -5.3972, 4.5, 45
+			switch variant {
+			case 1:
+				lat, lon, speed, cdeg = 0, 0, 0, 0
+			case 2:
+				lat, lon, speed, cdeg = -90, 180, 0.00001, 360
+			}
+			crs, _ := catalog.NewCourse(cdeg, mask&1 == 1)
 			p := catalog.PosReport{Date: time.Date(2020, 2, 29, 23, 59, 30, 0, time.FixedZone("x", 3600))}
 			f := func(o string) string { return "~" }
 			_ = f
@@ -224,7 +232,7 @@ func init() {
 			}
 			msg := p.Message("LA5NTA")
 			body, _ := msg.Body()
-			rep := map[string]interface{}{"mask": mask, "body": body}
+			rep := map[string]interface{}{"mask": mask, "body": body, "lat": lat, "lon": lon, "speed": speed, "course": cdeg}
 			if err := msg.Validate(); err != nil {
 				c.Violate("C20:message-invalid", "position report message does not validate: "+err.Error(), rep)
 			}
@@ -248,7 +256,7 @@ func init() {
 				c.Violate("C20:message-type", "wrong message type", rep)
 			}
 			cases = append(cases, Case{Line: fmt.Sprintf("posbody %s %s %s %s %s %s", hs(p.Date.UTC().Format(fbb.DateLayout)), fl, flo, fs, fc, fcm),
-				Impl: hs(body), Desc: fmt.Sprintf("PosReport.Message optional-field mask %05b", mask), Class: "message", Nontrivial: true})
+				Impl: hs(body), Desc: fmt.Sprintf("PosReport.Message optional-field mask %05b values %v/%v/%v/%d", mask, lat, lon, speed, cdeg), Class: "message", Nontrivial: true})
 		}
 		c.Compare(cases)
 	})
